@@ -49,6 +49,7 @@ theorem perform_aux (o : Nat) (a : Act) (st : Bool) : AllAux (perform o a st).ev
   split
   · exact allAux_nil
   · exact allAux_nil
+  · exact allAux_nil
   · exact exitFn_aux _ _
   · split
     · exact exitFn_aux _ _
@@ -526,6 +527,7 @@ theorem perform_quiet (o : Nat) {a : Act} (h : a.clean = true) (st : Bool) : Qui
   cases a with
   | ret => exact Or.inl rfl
   | raise => simp [Act.clean] at h
+  | interrupt => simp [Act.clean] at h
   | exitCall e => cases e <;> simp [Act.clean] at h; exact Or.inr rfl
   | exitMsg err =>
     cases err
@@ -766,6 +768,7 @@ theorem perform_evs_sub (o : Nat) (a : Act) (st : Bool) : ∀ x ∈ (perform o a
   split
   · simp
   · simp
+  · simp
   · exact exitFn_evs_sub _ _
   · split
     · exact exitFn_evs_sub _ _
@@ -859,6 +862,112 @@ theorem C08_process_raises_run (P : Policy) (s : Script) (pre post : List Iter) 
   simp only [hc, Bool.false_eq_true, if_false, hio, if_true, skel_guarded, skel_stage, hsetup]
   simp [perform]
 
+/-! ## interrupts: a `BaseException` that is neither an `Exception` nor `Filter.Exit`
+(`KeyboardInterrupt` at any point, `self.exit(reason, SystemExit(n))`) -/
+
+/-- no handler inside `run` stops it: the loop's `except loop_exc` does not see it whatever `loop_exc` is,
+`except PropagateError` does not eat it, `except Exception` / `except Filter.Exit` do not catch it;
+and `is_exc` is False for it -/
+theorem C08_interrupt_not_caught (P : Policy) :
+    continues P (some .base) = false ∧ eat (some .base) = some .base ∧ outcomeOf (some .base) = .raises .base ∧
+    isExc (some .base) = false := ⟨rfl, rfl, rfl, rfl⟩
+
+/-- **C08** (interrupts): if an interrupt is in flight after setup / loop / shutdown (and `send_exit_msg` and `fini`
+then return), `run()` raises it.  Stated fact about the announcement: `is_exc` only tests for `Exception`, so the
+neighbours are told 'clean' (if the propagate policy has the clean bit), never 'error'. -/
+theorem C08_interrupt_raises (P : Policy) (s : Script) (hc : s.ctorRaises = false) (hio : initOk P s = true)
+    (hbody : bodyExn P s = some .base) (hse : s.sendExitRaises = false) (hf : actExn P.obey s.fini = none) :
+    (run P s).outcome = .raises .base ∧
+    sentOf (run P s).evs = if propBit P.prop false then [false] else [] := by
+  constructor
+  · rw [C08_outcome_raises]; right
+    refine ⟨hc, ?_, by simp⟩
+    simp [finalExn, hio, hf, hse, hbody, eat]
+  · rw [C08_exit_msg]; simp [hc, hio, hbody, isExc, Exn.isException]
+
+/-- an interrupt that ends `init()` (before or after the MQ was built) leaves `run()` as it is: nothing is announced,
+`fini()` does not run, an MQ that was built is destroyed (`C08_mq_destroyed_iff_built`) -/
+theorem C08_interrupt_in_init_raises (P : Policy) (s : Script) (hc : s.ctorRaises = false)
+    (h : (initStage P s false).exn = some .base) :
+    (run P s).outcome = .raises .base ∧ sentOf (run P s).evs = [] ∧ Ev.fini ∉ (run P s).evs := by
+  have hio : initOk P s = false := by simp [initOk, h]
+  refine ⟨?_, ?_, ?_⟩
+  · rw [C08_outcome_raises]; right
+    exact ⟨hc, by simp [finalExn, hio, h], by simp⟩
+  · rw [C08_exit_msg]; simp [hio]
+  · have h2 := C08_fini_iff_init_completed P s
+    have hm : Ev.initDone ∉ (run P s).evs := by
+      rw [mem_skel (e := .initDone) rfl, skel_run]
+      simp only [hc, Bool.false_eq_true, if_false, hio]
+      rw [skel_initStage]
+      have hne : ¬((perform P.obey s.initPre false).exn = none ∧ s.mqRaises = false ∧
+          (perform P.obey s.initPost (perform P.obey s.initPre false).stop).exn = none) :=
+        fun hh => by have := (initStage_exn_none_iff P s false).mpr hh; rw [h] at this; cases this
+      by_cases h1 : (perform P.obey s.initPre false).exn = none
+      · by_cases h2' : s.mqRaises = false
+        · have h3 : (perform P.obey s.initPost (perform P.obey s.initPre false).stop).exn ≠ none := fun h3 => hne ⟨h1, h2', h3⟩
+          cases h4 : (perform P.obey s.initPost (perform P.obey s.initPre false).stop).exn with
+          | none => exact absurd h4 h3
+          | some e => simp [h1, h2', h4]
+        · have : s.mqRaises = true := by cases hh : s.mqRaises <;> simp_all
+          simp [h1, this]
+      · cases h4 : (perform P.obey s.initPre false).exn with
+        | none => exact absurd h4 h1
+        | some e => simp [h4]
+    rw [if_neg hm] at h2
+    exact List.count_eq_zero.mp h2
+
+/-- a `KeyboardInterrupt` in, or an `exit(reason, SystemExit(n))` from, the k-th `process` leaves the loop
+whatever `loop_exc` is; no further iteration starts -/
+theorem loop_process_interrupted (P : Policy) (ea : Option Nat) (pre post : List Iter) (it : Iter)
+    (hpre : pre.all (Iter.plain ea) = true) (hr : it.recv = .ret)
+    (hp : it.process = .interrupt ∨ it.process = .exitCall .base) (k : Nat) :
+    (loop P ea (pre ++ it :: post) k false).exn = some .base ∧
+    Ev.recv (k + pre.length + 1) ∉ (loop P ea (pre ++ it :: post) k false).evs := by
+  rw [loop_plain_prefix P ea pre _ hpre k]
+  have h1 : (loopOnce P ea it (k + pre.length) false).exn = some .base ∧
+      ∀ j, Ev.recv j ∈ (loopOnce P ea it (k + pre.length) false).evs → j = k + pre.length :=
+    ⟨by rcases hp with hp | hp <;> simp [loopOnce, iterBody, hr, hp, R.bind, emit, performPoll, perform, exitFn],
+     fun j hj => loopOnce_recv_index P ea it _ j false hj⟩
+  have hcont : continues P (loopOnce P ea it (k + pre.length) false).exn = false := by rw [h1.1]; rfl
+  simp only [loop, hcont, Bool.false_eq_true, if_false]
+  refine ⟨h1.1, ?_⟩
+  intro hm
+  rcases List.mem_append.mp hm with hm | hm
+  · have : ∀ (n k j : Nat), Ev.recv j ∈ plainEvs k n → j < k + n := by
+      intro n
+      induction n with
+      | zero => intro k j h; simp [plainEvs] at h
+      | succ n ih =>
+        intro k j h
+        simp only [plainEvs, List.cons_append, List.nil_append, List.mem_cons, Ev.recv.injEq, reduceCtorEq, false_or] at h
+        rcases h with h | h
+        · omega
+        · have := ih (k + 1) j h; omega
+    have := this _ _ _ hm; omega
+  · have := h1.2 _ hm; omega
+
+/-- **C08** (interrupt in the k-th `process`, both `loop_exc` settings): `shutdown()` still runs exactly once,
+`run()` raises the interrupt, the neighbours are told 'clean' if the policy has the clean bit -/
+theorem C08_process_interrupted_run (P : Policy) (s : Script) (pre post : List Iter) (it : Iter)
+    (hc : s.ctorRaises = false) (h1 : s.initPre = .ret) (h2 : s.mqRaises = false) (h3 : s.initPost = .ret)
+    (hsetup : s.setup = .ret) (hshut : s.shutdown = .ret) (hse : s.sendExitRaises = false) (hfini : s.fini = .ret)
+    (hits : s.iters = pre ++ it :: post) (hpre : pre.all (Iter.plain s.exitAfter) = true)
+    (hr : it.recv = .ret) (hp : it.process = .interrupt ∨ it.process = .exitCall .base) :
+    (run P s).outcome = .raises .base ∧ sentOf (run P s).evs = (if propBit P.prop false then [false] else []) ∧
+    (run P s).evs.count .shutdown = 1 := by
+  have hinit := initStage_plain P s h1 h2 h3
+  have hio : initOk P s = true := by simp [initOk, hinit]
+  have hb : bodyExn P s = some .base := by
+    unfold bodyExn; rw [stage_exn, hsetup, hshut, hinit, hits]
+    simp [actExn, perform, (loop_process_interrupted P s.exitAfter pre post it hpre hr hp 1).1]
+  have h := C08_interrupt_raises P s hc hio hb hse (by simp [hfini, actExn, perform])
+  refine ⟨h.1, h.2, ?_⟩
+  rw [C08_shutdown_once_iff_setup, if_pos]
+  rw [mem_skel (e := .setupDone) rfl, skel_run]
+  simp only [hc, Bool.false_eq_true, if_false, hio, if_true, skel_guarded, skel_stage, hsetup]
+  simp [perform]
+
 /-! ## stated boundaries (Python `finally` semantics), each a `decide`d script -/
 
 /-- prop_exit='clean', obey_exit='all', loop_exc on -/
@@ -898,10 +1007,34 @@ theorem C08_boundary_send_exit_raises :
     (run P0 { sBase with iters := [⟨.ret, .exitCall .exit, .ret, 0⟩], sendExitRaises := true }).outcome = .raises .other := by
   decide +kernel
 
+/-- stated fact: a `KeyboardInterrupt` in `process` with `loop_exc` off still leaves the loop and `run()`; since
+`is_exc` only tests for `Exception`, the exit message says 'clean' -/
+theorem C08_boundary_interrupt_announced_clean :
+    (run ⟨3, 3, false⟩ { sBase with iters := [⟨.ret, .interrupt, .ret, 0⟩, ⟨.ret, .ret, .ret, 0⟩] }).outcome = .raises .base ∧
+    sentOf (run ⟨3, 3, false⟩ { sBase with iters := [⟨.ret, .interrupt, .ret, 0⟩, ⟨.ret, .ret, .ret, 0⟩] }).evs = [false] ∧
+    Ev.recv 2 ∉ (run ⟨3, 3, false⟩ { sBase with iters := [⟨.ret, .interrupt, .ret, 0⟩, ⟨.ret, .ret, .ret, 0⟩] }).evs ∧
+    (run ⟨3, 3, false⟩ { sBase with iters := [⟨.ret, .interrupt, .ret, 0⟩, ⟨.ret, .ret, .ret, 0⟩] }).evs.count .shutdown = 1 := by
+  decide +kernel
+
+/-- boundary: `self.exit('fatal', SystemExit(1))` from `setup()`: `run()` raises the SystemExit, `shutdown()` does not
+run, `fini()` does -/
+theorem C08_boundary_exit_with_systemexit :
+    (run P0 { sBase with setup := .exitCall .base }).outcome = .raises .base ∧
+    Ev.shutdown ∉ (run P0 { sBase with setup := .exitCall .base }).evs ∧
+    Ev.fini ∈ (run P0 { sBase with setup := .exitCall .base }).evs := by
+  decide +kernel
+
+/-- boundary: an interrupt in flight is replaced like any other exception: `exit()` called from `shutdown()` masks it -/
+theorem C08_boundary_exit_in_shutdown_masks_interrupt :
+    (run P0 { sBase with iters := [⟨.ret, .interrupt, .ret, 0⟩], shutdown := .exitCall .exit }).outcome = .returns := by
+  decide +kernel
+
 /-! non-vacuity of the main theorems' hypotheses -/
 
 example : Script.clean { sBase with setup := .stop, iters := [⟨.exitMsg false, .ret, .stop, 5⟩], fini := .exitCall .exit } = true := by decide
 example : initOk P0 sBase = true ∧ bodyExn P0 { sBase with setup := .raise } = some .other := by decide +kernel
+example : bodyExn P0 { sBase with shutdown := .interrupt } = some .base ∧
+    (initStage P0 { sBase with initPost := .interrupt } false).exn = some .base := by decide +kernel
 example : (run P0 { sBase with iters := [⟨.ret, .ret, .ret, 0⟩, ⟨.ret, .ret, .ret, 2000⟩, ⟨.ret, .ret, .ret, 3000⟩], exitAfter := some 1500 }).evs =
     [.ctor, .init, .emitStart, .hbStart, .mqBuilt, .initDone, .setup, .setupDone, .recv 1, .process 1, .send 1,
      .recv 2, .process 2, .send 2, .hbStop, .exiting, .shutdown, .sendExit false, .fini, .mqDestroy, .emitStop true] := by
